@@ -11,10 +11,12 @@ poll-method slots, the child side of a fork()).  No rule names a static function
   * file-scope locations (variables and fields of file-scope structs alike) are classified by what is done with
     them: lock objects, lock-protected data, one-way flags, configuration setters, set-up-phase data;
   * the fields of the work pool's private records are classified from their accesses (immutable after publication /
-    lock-protected / own synchronisation / thread-confined), the records themselves are found by role.
+    lock-protected / own synchronisation / thread-confined), the records themselves are found by role;
+  * (seeded round 3, R-C14f) a record that its owner frees once nobody has a claim on it must not be touched by a thread
+    after the lock region in which that thread gave up its claim (the count of claims is found by role, too).
 """
 from ..core import (AnalysisBroken, Inliner, canon, strip, strip_load, last_member, forward, lvalue_steps, lvalue_root,
-                    is_null, walk)
+                    is_null, walk, relpath)
 from ..analyses import (held, SIGBLOCK, callback_kind, describe, LOCK_FUNCS)
 from . import h14 as h
 
@@ -824,7 +826,14 @@ def run(ctx):
                        'it is installed with all signals blocked', floor=5)
     ctx.rule('R-C14e', 'lock order: the held->acquired graph over all entry points is acyclic; no user callback under a lock '
                        'except the tabled thread_stop hook', floor=3)
+    ctx.rule('R-C14f', 'no access to a shared record after the lock region in which the thread gave up its claim on it: once a '
+                       'worker has stepped the pool\'s count of live threads back (the count that the thread-creating side steps '
+                       'up and that lets the owner free the pool), every later access of that activation to the pool record -- '
+                       'the lock included -- is made before the lock that protects the count is released for the first time; the '
+                       'body of a worker thread that gives its claim up inside the loop does not touch the pool after the loop',
+             floor=2)
     ctx.section(lockset_rule)
+    ctx.section(claim_release)
     ctx.section(confinement)
     ctx.section(one_way)
     ctx.section(signal_context)
@@ -1018,6 +1027,162 @@ def lockset_rule(ctx):
             ctx.ob('R-C14e', inst, False, loc=e['loc'], detail='user code entered with %s held (entry %s)' % (sorted(H), r.name))
     if deferred:
         raise AnalysisBroken('; '.join(deferred))
+
+
+def _creates_pool_thread(e, T):
+    """a thread is created and handed a thread record of the pool"""
+    if not _creates_thread(e):
+        return False
+    for a in e.get('args', []):
+        v = strip(a)
+        if isinstance(v, dict) and v.get('record') == T and v.get('ptr'):
+            return True
+    return False
+
+
+def _touched(e, al, recs, rec):
+    """[(object expression, kind)] the event accesses inside an object of record type rec (lock operations and
+    addresses handed to functions that are not inlined included)"""
+    return [(x, kind) for (x, kind) in access_items(e, al) if any(k[0] == rec for k in keys_of(x, al, recs))]
+
+
+def claim_release(ctx):
+    """R-C14f.  The pool record is freed by its owner as soon as it sees, under the pool lock, that no thread has a
+    claim on it any more.  The claim of a worker is its unit in the count of live threads: the integer inside the pool
+    record that only contexts which create a thread for the pool step one way (the take, made on behalf of the new
+    thread) and that is stepped back elsewhere (the give-up).  From the give-up on, the only thing that keeps the
+    owner from freeing the record is the lock the worker still holds: every access to the record (its lock included)
+    that may follow the give-up must be made before that lock is released for the first time.  Evaluated in every
+    context that contains a give-up, helpers inlined; what matters is the order of events on paths, not how the code is
+    cut into functions, nor whether the count runs up or down or where in the record it lives."""
+    prog = ctx.prog
+    M = model(prog)
+    P, T = M.P, M.T
+    if P is None or T is None:
+        raise AnalysisBroken('work pool records not found')
+    # ---- the count of claims: stepped both ways, one way only where a thread is created for the pool -----------
+    steps = {}       # path -> dir -> [(cx, b, i, e, H)]
+    creating = set()
+    for cx in M.cxs:
+        for b, i, e, H in cx.points():
+            if _creates_pool_thread(e, T):
+                creating.add(cx.root.q)
+            st = h.step_of(e, P, cx.al) if e['ev'] == 'store' else None
+            if st is not None:
+                steps.setdefault(st[0], {}).setdefault(st[1], []).append((cx, b, i, e, H))
+    counts = {}      # path -> direction of the give-up
+    for path, d in steps.items():
+        if len(d) != 2:
+            continue
+        take = [dr for dr, lst in d.items() if all(cx.root.q in creating for (cx, _, _, _, _) in lst)]
+        if len(take) != 1:
+            continue
+        give = 'down' if take[0] == 'up' else 'up'
+        if any(cx.root.q not in creating for (cx, _, _, _, _) in d[give]):
+            counts[path] = give
+    if not counts:
+        raise AnalysisBroken('work pool: no count of live threads found in %s (an integer that only thread-creating contexts step one '
+                             'way and that a worker steps back)' % P)
+    bodies = _uniq_funcs(fs_ for (_, e, fs) in h.call_func_args(prog, h.THREAD_CREATE) if _creates_pool_thread(e, T) for fs_ in fs)
+    by_root = {cx.root.q: cx for cx in M.cxs}
+    for path, give in sorted(counts.items()):
+        name = '%s.%s' % (P, '.'.join(path))
+        key = (P, path[0])
+        L = M.lock_of(key)
+        sites = {}        # anchor frame of the give-up -> dict(locs, roots, bad)
+        by_cx = {}
+        loc2anchor = {}
+        for (cx, b, i, e, H) in steps[path][give]:
+            by_cx.setdefault(cx.root.q, (cx, {}))[1].setdefault(id(e), True)
+            if L is None or L not in H:
+                by_cx[cx.root.q][1][id(e)] = False
+            an = h.anchor_frame(prog, e, cx.root)
+            s_ = sites.setdefault(an, dict(locs={}, roots=set(), bad=[], e=e))
+            s_['locs'][e.get('loc')] = an
+            s_['roots'].add(cx.root.name)
+            loc2anchor[(cx.root.q, e.get('loc'))] = an
+        for q, (cx, stp) in sorted(by_cx.items()):
+            ev_in = h.claim_regions(cx.g, cx.eff, L, stp)
+            for b, i, e, H in cx.points():
+                closed = [x for x in (ev_in.get((b, i)) or ()) if x[0] == 'closed']
+                if not closed:
+                    continue
+                tch = _touched(e, cx.al, M.recs, P)
+                if not tch:
+                    continue
+                for c in sorted(closed, key=str):
+                    an = loc2anchor.get((cx.root.q, c[1]))
+                    if an is not None:
+                        sites[an]['bad'].append((e, c, cx, tch[0]))
+        for an, s_ in sorted(sites.items()):
+            # (reported: the first access in the source file where the claim was given up, else the first one)
+            def site(t):
+                # where the access is made, seen from the source file in which the claim was given up: the access itself,
+                # or the call in that file through which an inlined function makes it
+                e, c = t[0], t[1]
+                fl = h.loc_order(c[1])[0]
+                if h.loc_order(e.get('loc'))[0] == fl:
+                    return e.get('loc')
+                for (_, cl, _) in reversed(e.get('chain') or []):
+                    if h.loc_order(cl)[0] == fl:
+                        return cl
+                return e.get('loc')
+            bad = sorted(s_['bad'], key=lambda t: (h.loc_order(site(t))[0] != h.loc_order(t[1][1])[0], h.loc_order(site(t)),
+                                                   h.loc_order(t[0].get('loc'))))
+            inst = 'released:%s:%s' % (name, h.short(an))
+            if bad:
+                e, c, cx, (x, kind) = bad[0]
+                nb = len({site(t) for t in bad})
+                det = ('%s (%s %s) after this thread gave up its claim on the pool (%s stepped %s at %s) and %s: the owner may '
+                       'already have destroyed and freed the pool (entry %s; %d such access sites)'
+                       % (describe(e), 'lock operation on' if kind == 'lockop' else kind + ' of', canon(x), name, give, relpath(c[1]),
+                          ('released %s at %s' % (L, relpath(c[2]))) if c[2] else ('did not hold %s there' % (L or 'any lock')),
+                          cx.root.name, nb))
+                ctx.ob('R-C14f', inst, False, loc=site(bad[0]), detail=det, fn=an,
+                       path=['give-up: %s' % relpath(c[1])] + (['lock released: %s' % relpath(c[2])] if c[2] else []) +
+                            ['access: %s' % relpath(e.get('loc'))])
+            else:
+                ctx.ob('R-C14f', inst, True, loc=s_['e'].get('loc'),
+                       detail='%s stepped %s with %s held at %d sites (entries %s); no access to %s follows the first release of the lock'
+                              % (name, give, L, len(s_['locs']), sorted(s_['roots']), P), fn=an)
+    # ---- after the loop -------------------------------------------------------------------------------------------
+    if not bodies:
+        raise AnalysisBroken('work pool: no thread body found')
+
+    def runs_loop(e, al):
+        return e['ev'] in ('call', 'enter') and e.get('callee') == 'iv_main'
+    for f in bodies:
+        cx = by_root.get(f.q)
+        if cx is None:
+            raise AnalysisBroken('thread body %s is not an entry point' % f.name)
+        own = any(cx2.root.q == f.q for path, give in counts.items() for (cx2, _, _, _, _) in steps[path][give])
+        inst = 'released:after-loop:%s' % f.name
+        if own:
+            ctx.ob('R-C14f', inst, True, loc=f.loc, detail='the thread body gives the claim up itself (judged above)', fn=f.q)
+            continue
+        if not any(runs_loop(e, cx.al) for e in cx.g.events()):
+            raise AnalysisBroken('thread body %s neither gives up its claim on the pool nor runs the event loop' % f.name)
+        bad = []
+        for b, i, e, H in cx.points():
+            if cx.may_follow('event loop ended', runs_loop, b, i):
+                tch = _touched(e, cx.al, M.recs, P)
+                if tch and not runs_loop(e, cx.al):
+                    bad.append((e, tch[0]))
+        bad.sort(key=lambda t: h.loc_order(t[0].get('loc')))
+        ctx.ob('R-C14f', inst, not bad, loc=(bad[0][0].get('loc') if bad else f.loc),
+               detail=('%s (%s of %s) after the thread\'s event loop has ended: the handlers of the thread record, one of which '
+                       'gave up the thread\'s claim on the pool, have run and been unregistered by then; the owner may have freed the pool'
+                       % (describe(bad[0][0]), bad[0][1][1], canon(bad[0][1][0]))) if bad else
+                      'the claim is given up by a handler that runs inside the loop; nothing after iv_main() touches %s' % P, fn=f.q)
+
+
+def _uniq_funcs(fs):
+    out, seen = [], set()
+    for f in fs:
+        if f is not None and f.q not in seen:
+            seen.add(f.q)
+            out.append(f)
+    return out
 
 
 def confinement(ctx):
